@@ -116,12 +116,12 @@ struct fiber {
 	enum fstate st;
 	void (*fn) (void *); void *arg;
 	nsync_semaphore *sem; int64_t deadline; int sem_result; /* BLOCKED_SEM */
-	long park_epoch; int quiet_ops;
+	long park_epoch; int quiet_ops; long seen_epoch;
 	void *ptw; void (*ptw_dest) (void *);
 	long call_seq; int in_api;
 	int prio;
 	/* futex */
-	int *fut_addr; int fut_woken; int fut_result;
+	int *fut_addr; int fut_woken; int fut_result; int fut_fault;
 };
 #define MAXF 16
 static struct fiber fibers[MAXF]; static int nfibers; static int cur = -1;
@@ -166,7 +166,7 @@ static int runnable (struct fiber *f) {
 	case F_READY: return (1);
 	case F_BLOCKED_SEM: return (*sem_count (f->sem) > 0 || f->deadline <= now_ns);
 	case F_PARKED: return (f->park_epoch != write_epoch);
-	case F_BLOCKED_FUTEX: return (f->fut_woken || (f->deadline != INF_NS && f->deadline <= now_ns));
+	case F_BLOCKED_FUTEX: return (f->fut_woken || f->fut_fault != 0 || (f->deadline != INF_NS && f->deadline <= now_ns));
 	default: return (0);
 	}
 }
@@ -309,13 +309,30 @@ static const char *loc_name (const void *p, const char *func, const char *expr, 
 	return (buf);
 }
 
-/* name for a mutex/cv given a pointer to the object itself (API arguments) */
+/* name of a sub-object (mutex, cv, note, counter) given a pointer to it: the location name of its
+   first word without the trailing field */
+const char *vf_objname (const void *p, char *buf, size_t n) {
+	struct obj *o = find_obj (p); size_t l;
+	if (o == NULL) { snprintf (buf, n, "anon"); return (buf); }
+	if ((const char *) p == o->base && (o->kind == K_NOTE || o->kind == K_CTR || o->kind == K_WAITER)) { snprintf (buf, n, "%s", o->name); return (buf); }
+	loc_name (p, "", "", buf, n);
+	l = strlen (buf);
+	if (l > 5 && strcmp (buf + l - 5, ".word") == 0) { buf[l - 5] = 0; }
+	return (buf);
+}
+static int64_t time_to_ns (nsync_time t);
+int64_t vf_time_ns (nsync_time t) { return (time_to_ns (t)); }
+
 static void note_op (int wrote) {
 	struct fiber *f;
 	if (cur < 0) { return; }
 	f = &fibers[cur];
 	if (wrote) { write_epoch++; f->quiet_ops = 0; f->park_epoch = -1; }
-	else { f->quiet_ops++; }
+	else {
+		/* count only operations that re-read a world nobody has written since the previous one */
+		if (f->seen_epoch != write_epoch) { f->quiet_ops = 0; f->seen_epoch = write_epoch; }
+		f->quiet_ops++;
+	}
 }
 
 /* ------------------------------------------------------------------ atomic operations */
@@ -475,21 +492,18 @@ long vf_syscall (long nr, ...) {
 		sched_point ();
 		if (d == INF_NS) { vf_log ("futex wait %s %d inf", lb, val); } else { vf_log ("futex wait %s %d %lld", lb, val, (long long) d); }
 		if (*(volatile int *) uaddr != val) { vf_log ("futex wait_ret %s EAGAIN", lb); errno = EAGAIN; note_op (0); return (-1); }
-		/* fault injection: early return */
+		/* fault injection: the sleeper will return early (EINTR / spurious 0 / premature ETIMEDOUT)
+		   unless a wake reaches it first */
+		f->fut_fault = 0;
 		if ((int) (vf_rand () % 1000) < cfg.futex_fault_prob) {
 			int kind = (int) (vf_rand () % 3);
 			if (kind == 2 && d == INF_NS) { kind = 0; }
-			res = kind == 0 ? EINTR : kind == 1 ? 0 : ETIMEDOUT;
-			f->st = F_READY; yield_to_sched ();
-			vf_log ("futex wait_ret %s %s", lb, errname (res));
-			note_op (1);
-			if (res == 0) { return (0); }
-			errno = res; return (-1);
+			f->fut_fault = kind == 0 ? EINTR : kind == 1 ? -1 : ETIMEDOUT;
 		}
 		f->st = F_BLOCKED_FUTEX; f->fut_addr = uaddr; f->fut_woken = 0; f->deadline = d;
 		yield_to_sched ();
-		res = f->fut_woken ? 0 : ETIMEDOUT;
-		f->fut_addr = NULL;
+		res = f->fut_woken ? 0 : f->fut_fault == -1 ? 0 : f->fut_fault != 0 ? f->fut_fault : ETIMEDOUT;
+		f->fut_addr = NULL; f->fut_fault = 0;
 		vf_log ("futex wait_ret %s %s", lb, errname (res));
 		note_op (1);
 		if (res == 0) { return (0); }
@@ -510,6 +524,7 @@ long vf_syscall (long nr, ...) {
 
 /* ------------------------------------------------------------------ compiler-inserted callbacks (-fsanitize=thread) */
 static int ignore_depth;
+const char *vf_objname (const void *p, char *buf, size_t n);
 static void plain_access (void *addr, int size, int is_write) {
 	struct obj *o;
 	if (cur < 0 || (!cfg.log_plain && !cfg.check_plain)) { return; }
@@ -565,12 +580,12 @@ void AnnotateRWLockCreate (const char *f, int l, void *mu) { (void) f; (void) l;
 void (*vf_lockann_hook) (void *mu, int acquired, int write);
 void AnnotateRWLockAcquired (const char *f, int l, void *mu, long w) {
 	(void) f; (void) l;
-	vf_log ("lockann acq %s %ld", vf_name_of (mu) ? vf_name_of (mu) : "?", w);
+	{ char nb[64]; vf_log ("lockann acq %s %ld", vf_objname (mu, nb, sizeof (nb)), w); }
 	if (vf_lockann_hook) { (*vf_lockann_hook) (mu, 1, (int) w); }
 }
 void AnnotateRWLockReleased (const char *f, int l, void *mu, long w) {
 	(void) f; (void) l;
-	vf_log ("lockann rel %s %ld", vf_name_of (mu) ? vf_name_of (mu) : "?", w);
+	{ char nb[64]; vf_log ("lockann rel %s %ld", vf_objname (mu, nb, sizeof (nb)), w); }
 	if (vf_lockann_hook) { (*vf_lockann_hook) (mu, 0, (int) w); }
 }
 
